@@ -2477,8 +2477,8 @@ end Aux
 namespace `n`, with any memo that agrees with label resolution (the empty memo; the memo handed on by the previous tree of
 a `TreeList` / component of a `DataSet`): nothing is dropped or invented (same length, nodes without taxon stay so), and every
 node with taxon `x` ends on the taxon `y` that label resolution in the final namespace answers for `x`'s label — so `y` is a
-member of `n` carrying `x`'s label up to the case rule.  The outgoing memo and store satisfy the hypotheses again (composes
-over `migrateTrees`/`migrateTls`). -/
+member of `n` carrying `x`'s label up to the case rule.  The outgoing memo and store satisfy the hypotheses again; the
+composition over the trees of a list and the lists of a data set is `migrateTrees_unify_spec` / `migrateTls_unify_spec`. -/
 theorem mapTaxa_unify_spec (n : Nat) : ∀ (xs : List (Option Nat)) (s : Store) (memo : Memo),
     FreshNs s n → (∀ x, some x ∈ xs → x < s.nTaxa) → MemoOk s n memo →
     related (fun x y => lookupFirst (mapTaxa s n true memo xs).1 n (s.ns n).cs (s.label x) = some y) xs (mapTaxa s n true memo xs).2.2
@@ -2509,9 +2509,10 @@ theorem resolved_member_label (s : Store) (n : Nat) (c : Bool) (lbl : String) (y
   unfold lookupFirst at h
   simpa using List.find?_some h
 
-/-- clause (b), the partition: two items of one pass (or of passes sharing the final namespace) sit on the same taxon exactly
-when their labels are equal under the namespace's case rule — equal labels are never spread over two taxa, different labels
-never merged; also for namespaces that already hold several taxa with one label -/
+/-- a fact about label resolution in ONE store (no pass involved): two labels resolve to the same taxon exactly when they are
+equal under the case rule, also in namespaces that hold several taxa with one label.  It turns the per-item conclusions of
+`mapTaxa_unify_spec` / `migrateTrees_unify_spec` / `migrateTls_unify_spec` / `cloneMemo_spec` (all stated against the FINAL store)
+into clause (b)'s partition; that conjunction is stated as `migrateTl_same_taxon_iff` below. -/
 theorem same_taxon_iff_equal_labels (s : Store) (n : Nat) (c : Bool) (l1 l2 : String) (y1 y2 : Nat)
     (h1 : lookupFirst s n c l1 = some y1) (h2 : lookupFirst s n c l2 = some y2) :
     y1 = y2 ↔ keyOf c l1 = keyOf c l2 := by
@@ -2552,7 +2553,10 @@ theorem migrateTree_unify_spec (s : Store) (t n : Nat) (memo : Memo)
 
 /-! ## clause (b) for matrix passes (`CharacterMatrix.reconstruct_taxon_namespace`, `mapKeys`) -/
 
-/-- A label-unifying pass over the sequence keys `xs` of a matrix (accepted or refused): every key of the result is either a key
+/-- SOUNDNESS DIRECTION ONLY (nothing here says an accepted pass keeps the number of sequences, or that key `x` ends on ITS image:
+"no sequence silently dropped or merged" is NOT proved for matrices — it needs `Nodup` of the key lists as an invariant; the
+oracle and the correspondence check it).  A label-unifying pass over the sequence keys `xs` of a matrix (accepted or refused):
+every key of the result is either a key
 the pass did not move, or the taxon label resolution in the final namespace answers for the label of one of the processed keys
 (so it is a member of `n` carrying that label up to the case rule: `resolved_member_label`; and two moved sequences would sit on
 one taxon exactly when their labels are equal: `same_taxon_iff_equal_labels` — which is when the pass refuses). The memo/store
@@ -2681,11 +2685,282 @@ theorem unify_false_distinct_partial (s : Store) (n : Nat) (memo : Memo) (x x' :
     have : ((mem s n).contains z) = true := by simpa using hz
     simp only [this, Bool.false_or, Bool.not_true, Bool.false_eq_true, if_false]
 
+/-! ## clause (b) for every copy route (`cloneMemo` / `applyMemo`) -/
+
+namespace Aux
+
+/-- label resolution in a fresh namespace: the store only grows, and the answer is what `lookupFirst` says afterwards -/
+theorem require_spec (s : Store) (n : Nat) (l : String) (hf : FreshNs s n) :
+    Ext n s (require s n (s.ns n).cs l).1
+    ∧ lookupFirst (require s n (s.ns n).cs l).1 n (s.ns n).cs l = some (require s n (s.ns n).cs l).2 := by
+  cases hl : lookupFirst s n (s.ns n).cs l with
+  | some y => rw [require_of_lookup hl]; exact ⟨Ext.refl hf, hl⟩
+  | none =>
+    have r : require s n (s.ns n).cs l = newTaxon s n l := by unfold require; rw [hl]
+    rw [r]
+    refine ⟨ext_newTaxon s n l hf, ?_⟩
+    rw [look_newTaxon s n _ _ _ hf, hl]; simp [newTaxon]
+
+theorem related_map_applyMemo (R : Nat → Nat → Prop) (m : Memo) :
+    ∀ (xs : List (Option Nat)), (∀ x, some x ∈ xs → R x (applyMemo m x)) → related R xs (xs.map (Option.map (applyMemo m)))
+  | [], _ => trivial
+  | none :: xs, h => by
+    simp only [List.map_cons, Option.map_none, related]
+    exact related_map_applyMemo R m xs (fun x hx => h x (by simp [hx]))
+  | some x :: xs, h => by
+    simp only [List.map_cons, Option.map_some, related]
+    exact ⟨h x (by simp), related_map_applyMemo R m xs (fun x' hx => h x' (by simp [hx]))⟩
+
+end Aux
+
+/-- CLAUSE (b) FOR EVERY COPY ROUTE.  The memo every copy into a foreign namespace is made through (`Tree(t, taxon_namespace=ns)`,
+`TreeList(tl, taxon_namespace=ns)`, `extend`/`+`/slice assignment from a `TreeList`, `new_tree(tree)`, `CharacterMatrix(m, ns)`)
+sends each member `x` of the source namespace to the taxon label resolution in the (grown) target answers for `x`'s label: a
+member of the target carrying that label up to its case rule; so two source taxa share their image exactly when their labels
+are equal under the target's rule (`same_taxon_iff_equal_labels`). -/
+theorem cloneMemo_spec (tgt : Nat) : ∀ (xs : List Nat) (s : Store), FreshNs s tgt → (∀ x, x ∈ xs → x < s.nTaxa) →
+    (∀ x, x ∈ xs → lookupFirst (cloneMemo s tgt xs).1 tgt (s.ns tgt).cs (s.label x) = some (applyMemo (cloneMemo s tgt xs).2 x))
+    ∧ Aux.Ext tgt s (cloneMemo s tgt xs).1
+  | [], s, hf, _ => ⟨by simp, Aux.Ext.refl hf⟩
+  | x :: xs, s, hf, hx => by
+    simp only [cloneMemo]
+    obtain ⟨e1, l1⟩ := Aux.require_spec s tgt (s.label x) hf
+    obtain ⟨ih, e2⟩ := cloneMemo_spec tgt xs (require s tgt (s.ns tgt).cs (s.label x)).1 e1.fresh
+      (fun x' h => Nat.lt_of_lt_of_le (hx x' (by simp [h])) e1.nT)
+    refine ⟨?_, e1.trans e2⟩
+    intro y hy
+    simp only [applyMemo, Aux.memoGet_cons]
+    by_cases e : x = y
+    · subst e
+      simp only [if_true, Option.getD_some]
+      have := e2.look _ _ (by rw [e1.cs]; exact l1)
+      rw [e1.cs] at this; exact this
+    · simp only [e, if_false]
+      have hy' : y ∈ xs := by
+        simp at hy
+        rcases hy with h | h
+        · exact absurd h.symm e
+        · exact h
+      have := ih y hy'
+      rw [e1.cs, e1.lab y (hx y (by simp [hy']))] at this
+      exact this
+
+/-- ... for a copied tree: `Tree(src, taxon_namespace=n)` into a foreign namespace keeps the shape (no node dropped or invented)
+and puts every node with taxon `x` on the taxon the target resolves `x`'s label to -/
+theorem cloneTree_spec (s : Store) (src n : Nat) (h : Aux.Inv s) (hfr : Fresh.FrAll s) (hne : (s.tree src).ns ≠ n) :
+    ((cloneTree s src n).1.tree (cloneTree s src n).2).ns = n
+    ∧ related (fun x y => lookupFirst (cloneTree s src n).1 n (s.ns n).cs (s.label x) = some y
+                          ∧ y ∈ mem (cloneTree s src n).1 n)
+        (s.tree src).taxa ((cloneTree s src n).1.tree (cloneTree s src n).2).taxa := by
+  obtain ⟨sp, _⟩ := cloneMemo_spec n (mem s (s.tree src).ns) s (hfr.ns n) (fun x hx => hfr.ns _ x hx)
+  unfold cloneTree
+  simp only [hne, if_false, allocTree, upd, if_true]
+  refine ⟨trivial, ?_⟩
+  apply Aux.related_map_applyMemo
+  intro x hx
+  have hm := h.treeOk src x hx
+  exact ⟨sp x hm, Aux.lookupFirst_mem (sp x hm)⟩
+
+/-! ## clause (b) across the trees of a list: the shared memo -/
+
+namespace Aux
+
+theorem migrateTree_frame (s : Store) (t n : Nat) (u : Bool) (memo : Memo) (t' : Nat) (ne : t' ≠ t) :
+    (migrateTree s t n u memo).1.tree t' = s.tree t' := by
+  simp [migrateTree, setTree, upd, ne, (grows_mapTaxa n u (s.tree t).taxa s memo).tree]
+
+end Aux
+
+/-- CLAUSE (b) ACROSS THE TREES OF A COLLECTION (the shared mapping memo).  A label-unifying pass over the pairwise different trees
+`ts` with one memo handed from tree to tree: afterwards EVERY tree is bound to `n`, has kept its shape, and every node with taxon `x`
+sits on the taxon the FINAL namespace resolves `x`'s label to — also the trees processed first (later trees do not disturb their
+images).  Hence two nodes anywhere in the collection share a taxon exactly when their labels are equal under `n`'s case rule
+(`same_taxon_iff_equal_labels` applied to the final store).  Hypothesis `ts.Nodup`: a tree object listed twice is re-resolved from
+its already migrated taxa the second time (same result, not stated here). -/
+theorem migrateTrees_unify_spec (n : Nat) : ∀ (ts : List Nat) (s : Store) (memo : Memo), ts.Nodup →
+    FreshNs s n → (∀ t, t ∈ ts → ∀ x, some x ∈ (s.tree t).taxa → x < s.nTaxa) → Aux.MemoOk s n memo →
+    (∀ t, t ∈ ts → ((migrateTrees s n true memo ts).1.tree t).ns = n
+        ∧ related (fun x y => lookupFirst (migrateTrees s n true memo ts).1 n (s.ns n).cs (s.label x) = some y)
+            (s.tree t).taxa ((migrateTrees s n true memo ts).1.tree t).taxa)
+    ∧ Aux.Ext n s (migrateTrees s n true memo ts).1
+    ∧ Aux.MemoOk (migrateTrees s n true memo ts).1 n (migrateTrees s n true memo ts).2
+    ∧ (∀ t', t' ∉ ts → (migrateTrees s n true memo ts).1.tree t' = s.tree t')
+  | [], s, memo, _, hf, _, hm => ⟨by simp, Aux.Ext.refl hf, hm, fun _ _ => rfl⟩
+  | t :: ts, s, memo, hnd, hf, hx, hm => by
+    simp only [migrateTrees]
+    have hnd' := List.nodup_cons.mp hnd
+    obtain ⟨r1, e1, m1⟩ := mapTaxa_unify_spec n (s.tree t).taxa s memo hf (hx t (by simp)) hm
+    -- the store after the first tree
+    have e1' : Aux.Ext n s (migrateTree s t n true memo).1 := by
+      simp only [migrateTree]
+      exact ⟨e1.nT, e1.lab, e1.cs, e1.fresh, e1.look⟩
+    have m1' : Aux.MemoOk (migrateTree s t n true memo).1 n (migrateTree s t n true memo).2 := by
+      simp only [migrateTree]; exact m1
+    have hx' : ∀ t', t' ∈ ts → ∀ x, some x ∈ ((migrateTree s t n true memo).1.tree t').taxa → x < (migrateTree s t n true memo).1.nTaxa := by
+      intro t' ht' x hxin
+      have ne : t' ≠ t := fun e => hnd'.1 (e ▸ ht')
+      rw [Aux.migrateTree_frame s t n true memo t' ne] at hxin
+      exact Nat.lt_of_lt_of_le (hx t' (by simp [ht']) x hxin) e1'.nT
+    obtain ⟨r2, e2, m2, f2⟩ := migrateTrees_unify_spec n ts _ _ hnd'.2 e1'.fresh hx' m1'
+    refine ⟨?_, e1'.trans e2, m2, ?_⟩
+    · intro t' ht'
+      simp at ht'
+      rcases ht' with e | ht'
+      · subst e
+        rw [f2 t' hnd'.1]
+        refine ⟨by simp [migrateTree, setTree, upd], ?_⟩
+        have : ((migrateTree s t' n true memo).1.tree t').taxa = (mapTaxa s n true memo (s.tree t').taxa).2.2 := by
+          simp [migrateTree, setTree, upd]
+        rw [this]
+        refine Aux.related_mono _ _ ?_ r1
+        intro x y _ hl
+        have := e2.look _ _ (by
+          rw [e1'.cs]
+          show lookupFirst (migrateTree s t' n true memo).1 n (s.ns n).cs (s.label x) = some y
+          simp only [migrateTree]
+          exact hl)
+        rw [e1'.cs] at this; exact this
+      · have ne : t' ≠ t := fun e => hnd'.1 (e ▸ ht')
+        obtain ⟨a, b⟩ := r2 t' ht'
+        refine ⟨a, ?_⟩
+        rw [Aux.migrateTree_frame s t n true memo t' ne] at b
+        refine Aux.related_mono _ _ ?_ b
+        intro x y hin hl
+        rw [e1'.cs, e1'.lab x (hx t' (by simp [ht']) x hin)] at hl
+        exact hl
+    · intro t' hn
+      simp at hn
+      rw [f2 t' hn.2, Aux.migrateTree_frame s t n true memo t' hn.1]
+
+/-- `TreeList.migrate_taxon_namespace(n)` / `reconstruct_taxon_namespace()` with `unify_taxa_by_label=True`: the list is bound to
+`n` and `migrateTrees_unify_spec` holds for its trees; the outgoing memo is the one `DataSet.unify_taxon_namespaces` hands to
+the next component -/
+theorem migrateTl_unify_spec (s : Store) (l n : Nat) (memo : Memo) (hnd : (s.tl l).trees.Nodup)
+    (hfr : Fresh.FrAll s) (hm : Aux.MemoOk s n memo) :
+    ((migrateTl s l n true memo).1.tl l).ns = n
+    ∧ (∀ t, t ∈ (s.tl l).trees → ((migrateTl s l n true memo).1.tree t).ns = n
+        ∧ related (fun x y => lookupFirst (migrateTl s l n true memo).1 n (s.ns n).cs (s.label x) = some y)
+            (s.tree t).taxa ((migrateTl s l n true memo).1.tree t).taxa)
+    ∧ Aux.MemoOk (migrateTl s l n true memo).1 n (migrateTl s l n true memo).2
+    ∧ FreshNs (migrateTl s l n true memo).1 n := by
+  simp only [migrateTl]
+  obtain ⟨r, e, m, _⟩ := migrateTrees_unify_spec n (s.tl l).trees
+    { s with tl := upd s.tl l { (s.tl l) with ns := n } } memo hnd (hfr.ns n) (fun t _ x hx => hfr.tree t x hx) hm
+  refine ⟨?_, r, m, e.fresh⟩
+  -- the tree pass does not touch the lists
+  have tlsame : ∀ (ts : List Nat) (σ : Store) (mm : Memo), (migrateTrees σ n true mm ts).1.tl = σ.tl := by
+    intro ts
+    induction ts with
+    | nil => intro σ mm; rfl
+    | cons t ts ih =>
+      intro σ mm
+      simp only [migrateTrees]
+      rw [ih]
+      simp [migrateTree, setTree, (Aux.grows_mapTaxa n true (σ.tree t).taxa σ mm).tl]
+  rw [tlsame]; simp [upd]
+
+namespace Aux
+
+theorem migrateTrees_tl (n : Nat) (u : Bool) : ∀ (ts : List Nat) (σ : Store) (mm : Memo), (migrateTrees σ n u mm ts).1.tl = σ.tl
+  | [], _, _ => rfl
+  | t :: ts, σ, mm => by
+    simp only [migrateTrees]
+    rw [migrateTrees_tl n u ts]
+    simp [migrateTree, setTree, (grows_mapTaxa n u (σ.tree t).taxa σ mm).tl]
+
+theorem mv_of_memoOk {s : Store} {n : Nat} {m : Memo} (hfr : Fresh.FrAll s) (hm : MemoOk s n m) : Fresh.MV s m :=
+  fun x y hxy => hfr.ns n y (lookupFirst_mem (hm x y hxy).2)
+
+end Aux
+
+/-- CLAUSE (b) ACROSS THE TREE LISTS OF A DATA SET (`unify_taxon_namespaces`: one memo through all components).  For tree lists `ls`
+whose trees are pairwise different objects: after `migrateTls` every tree of every list is bound to `n`, has kept its shape, and
+every node with taxon `x` sits on the taxon the FINAL namespace resolves `x`'s label to.  The outgoing memo agrees with label
+resolution, which is the hypothesis `mapKeys_unify_spec` needs for the matrices processed next. -/
+theorem migrateTls_unify_spec (n : Nat) : ∀ (ls : List Nat) (s : Store) (memo : Memo),
+    (ls.flatMap (fun l => (s.tl l).trees)).Nodup → ls.Nodup → Fresh.FrAll s → Aux.MemoOk s n memo →
+    (∀ l, l ∈ ls → ∀ t, t ∈ (s.tl l).trees → ((migrateTls s n memo ls).1.tree t).ns = n
+        ∧ related (fun x y => lookupFirst (migrateTls s n memo ls).1 n (s.ns n).cs (s.label x) = some y)
+            (s.tree t).taxa ((migrateTls s n memo ls).1.tree t).taxa)
+    ∧ Aux.Ext n s (migrateTls s n memo ls).1
+    ∧ Aux.MemoOk (migrateTls s n memo ls).1 n (migrateTls s n memo ls).2
+    ∧ (∀ t', (∀ l, l ∈ ls → t' ∉ (s.tl l).trees) → (migrateTls s n memo ls).1.tree t' = s.tree t')
+  | [], s, memo, _, _, hfr, hm => ⟨by simp, Aux.Ext.refl (hfr.ns n), hm, fun _ _ => rfl⟩
+  | l :: ls, s, memo, hnd, hnl, hfr, hm => by
+    simp only [migrateTls]
+    simp only [List.flatMap_cons] at hnd
+    have hnd' := List.nodup_append.mp hnd
+    have hnl' := List.nodup_cons.mp hnl
+    -- the first list
+    obtain ⟨r1, e1, m1, f1⟩ := migrateTrees_unify_spec n (s.tl l).trees
+      { s with tl := upd s.tl l { (s.tl l) with ns := n } } memo hnd'.1 (hfr.ns n) (fun t _ x hx => hfr.tree t x hx) hm
+    have st1 : (migrateTl s l n true memo).1 = (migrateTrees { s with tl := upd s.tl l { (s.tl l) with ns := n } } n true memo (s.tl l).trees).1 := rfl
+    have sm1 : (migrateTl s l n true memo).2 = (migrateTrees { s with tl := upd s.tl l { (s.tl l) with ns := n } } n true memo (s.tl l).trees).2 := rfl
+    have fr1 := (Fresh.frAll_migrateTl hfr l n true memo (Aux.mv_of_memoOk hfr hm)).1
+    -- tree-id lists of the other lists are untouched
+    have trees1 : ∀ l', l' ≠ l → ((migrateTl s l n true memo).1.tl l').trees = (s.tl l').trees := by
+      intro l' ne
+      rw [st1, Aux.migrateTrees_tl]
+      simp [upd, ne]
+    have hflat : (ls.flatMap (fun l' => ((migrateTl s l n true memo).1.tl l').trees)) = ls.flatMap (fun l' => (s.tl l').trees) := by
+      have gen : ∀ (xs : List Nat), (∀ l', l' ∈ xs → l' ≠ l) →
+          xs.flatMap (fun l' => ((migrateTl s l n true memo).1.tl l').trees) = xs.flatMap (fun l' => (s.tl l').trees) := by
+        intro xs
+        induction xs with
+        | nil => intro _; rfl
+        | cons a xs ih =>
+          intro hne
+          simp only [List.flatMap_cons]
+          rw [trees1 a (hne a (by simp)), ih (fun l' hl' => hne l' (by simp [hl']))]
+      exact gen ls (fun l' hl' e => hnl'.1 (e ▸ hl'))
+    obtain ⟨r2, e2, m2, f2⟩ := migrateTls_unify_spec n ls (migrateTl s l n true memo).1 (migrateTl s l n true memo).2
+      (by rw [hflat]; exact hnd'.2.1) hnl'.2 fr1 (by rw [st1, sm1]; exact m1)
+    have e1' : Aux.Ext n s (migrateTl s l n true memo).1 := by rw [st1]; exact ⟨e1.nT, e1.lab, e1.cs, e1.fresh, e1.look⟩
+    refine ⟨?_, e1'.trans e2, m2, ?_⟩
+    · intro l0 hl0 t ht
+      simp at hl0
+      rcases hl0 with e | hl0
+      · subst e
+        -- a tree of the first list: not touched by the later lists
+        have notlater : ∀ l', l' ∈ ls → t ∉ ((migrateTl s l0 n true memo).1.tl l').trees := by
+          intro l' hl' hin
+          rw [trees1 l' (fun e => hnl'.1 (e ▸ hl'))] at hin
+          exact hnd'.2.2 t ht t (List.mem_flatMap.mpr ⟨l', hl', hin⟩) rfl
+        rw [f2 t notlater]
+        obtain ⟨a, b⟩ := r1 t ht
+        refine ⟨by rw [st1]; exact a, ?_⟩
+        rw [st1]
+        refine Aux.related_mono _ _ ?_ b
+        intro x y _ hl
+        have := e2.look _ _ (by rw [e1'.cs]; rw [st1]; exact hl)
+        rw [e1'.cs] at this; exact this
+      · have ne : l0 ≠ l := fun e => hnl'.1 (e ▸ hl0)
+        have ht' : t ∈ ((migrateTl s l n true memo).1.tl l0).trees := by rw [trees1 l0 ne]; exact ht
+        obtain ⟨a, b⟩ := r2 l0 hl0 t ht'
+        have tn : t ∉ (s.tl l).trees := by
+          intro hin
+          exact hnd'.2.2 t hin t (List.mem_flatMap.mpr ⟨l0, hl0, ht⟩) rfl
+        have same : (migrateTl s l n true memo).1.tree t = s.tree t := by rw [st1]; exact f1 t tn
+        refine ⟨a, ?_⟩
+        rw [same] at b
+        refine Aux.related_mono _ _ ?_ b
+        intro x y hin hl
+        rw [e1'.cs, e1'.lab x (hfr.tree t x hin)] at hl
+        exact hl
+    · intro t' hn
+      have h1 : t' ∉ (s.tl l).trees := hn l (by simp)
+      have h2 : ∀ l', l' ∈ ls → t' ∉ ((migrateTl s l n true memo).1.tl l').trees := by
+        intro l' hl'
+        rw [trees1 l' (fun e => hnl'.1 (e ▸ hl'))]
+        exact hn l' (by simp [hl'])
+      rw [f2 t' h2, st1]; exact f1 t' h1
+
 /-! ## freshness is a history invariant (not a hypothesis) -/
 
 open DendroModel.C11.Fresh in
-/-- every taxon id referred to anywhere (namespace members, node taxa, sequence keys) stays an allocated one under EVERY
-operation, valid or not -/
+/-- every taxon id referred to anywhere (namespace members, node taxa, sequence keys) stays an allocated one under EVERY `step`,
+inside or outside `valid` (and outside `idsOk`, where the driver's `stepG` refuses and `step` acts on blank objects: the
+statement is about `step`, so it covers `stepG` a fortiori — `fresh_stepG`) -/
 theorem fresh_step (s : Store) (op : Op) (h : FrAll s) : FrAll (step s op).1 := by
   cases op with
   | ns cs labels => simp only [step]; exact frAll_newTaxa _ labels (frAll_newNs h cs).1
@@ -2954,6 +3229,40 @@ theorem migrateTree_unify_reachable (ops : List Op) (t n : Nat) :
   obtain ⟨a, b, _, _⟩ := migrateTree_unify_spec (run init ops) t n [] f x (Aux.memoOk_nil _ _)
   exact ⟨a, b⟩
 
+theorem fresh_stepG (s : Store) (op : Op) (h : Fresh.FrAll s) : Fresh.FrAll (stepG s op).1 := by
+  unfold stepG; split
+  · exact fresh_step s op h
+  · exact h
+
+/-- clause (b) for `TreeList.migrate_taxon_namespace` / `reconstruct_taxon_namespace` as the statement words it: after the pass,
+two nodes ANYWHERE in the list (same tree or not) whose old taxa were `x1`, `x2` and whose new taxa are `y1`, `y2` satisfy
+`y1 = y2 ↔` the labels of `x1`, `x2` are equal under `n`'s case rule — given only that they are related positions
+(`related` of `migrateTl_unify_spec` delivers exactly the two lookup facts used here) -/
+theorem migrateTl_same_taxon_iff (s : Store) (l n : Nat) (memo : Memo) (x1 x2 y1 y2 : Nat)
+    (h1 : lookupFirst (migrateTl s l n true memo).1 n (s.ns n).cs (s.label x1) = some y1)
+    (h2 : lookupFirst (migrateTl s l n true memo).1 n (s.ns n).cs (s.label x2) = some y2) :
+    (y1 = y2 ↔ keyOf (s.ns n).cs (s.label x1) = keyOf (s.ns n).cs (s.label x2))
+    ∧ y1 ∈ mem (migrateTl s l n true memo).1 n ∧ y2 ∈ mem (migrateTl s l n true memo).1 n :=
+  ⟨same_taxon_iff_equal_labels _ n _ _ _ y1 y2 h1 h2, Aux.lookupFirst_mem h1, Aux.lookupFirst_mem h2⟩
+
+/-- the history the driver runs (`stepG` at every step) -/
+def runG (s : Store) : List Op → Store
+  | [] => s
+  | op :: ops => runG (stepG s op).1 ops
+
+/-- on a valid history the driver's run is `run`, so closure and freshness hold along what `drv_c11` actually executes -/
+theorem runG_eq_run : ∀ (ops : List Op) (s : Store), validHist s ops = true → runG s ops = run s ops
+  | [], _, _ => rfl
+  | op :: ops, s, hv => by
+    simp only [validHist, Bool.and_eq_true] at hv
+    simp only [runG, run, stepG_of_valid hv.1]
+    exact runG_eq_run ops _ hv.2
+
+theorem closed_reachable_driver (ops : List Op) (hv : validHist init ops = true) :
+    Aux.Inv (runG init ops) ∧ Fresh.FrAll (runG init ops) := by
+  rw [runG_eq_run ops init hv]
+  exact ⟨closed_reachable ops init Aux.inv_init hv, fresh_reachable ops init Fresh.frAll_init⟩
+
 /-! ## non-vacuity: the hypotheses are satisfiable and the conclusions are not trivial -/
 
 /-- a foreign tree appended to a list of another namespace: valid, covered, and the world stays closed -/
@@ -2985,6 +3294,22 @@ example : FreshNs demo 0 ∧ (∀ x, some x ∈ (demo.tree 0).taxa → x < demo.
 case-insensitive target, `C` on a new taxon (5) -/
 example : ((migrateTree demo 0 0 true []).1.tree 0).taxa = [some 5, some 0, some 0]
     ∧ mem (migrateTree demo 0 0 true []).1 0 = [0, 1, 5] := by decide +kernel
+
+/-- a reachable world with a list of two different trees on case-variant labels: case-sensitive namespace 1 = [a, A, C],
+case-insensitive namespace 0 = [A, b]; list 0 (namespace 1) = [tree 0 on (C, a), tree 1 on (A, a)] -/
+def demo2 : Store := run init [.ns false ["A", "b"], .ns true ["a", "A", "C"], .tree 1 [some 2, some 0], .tree 1 [some 1, some 0],
+  .tlist (some 1), .append 0 0 .migrate, .append 0 1 .migrate]
+
+/-- `migrateTl_unify_spec` applies to it with every hypothesis PROVED (freshness by `fresh_reachable`, the empty memo) ... -/
+example := migrateTl_unify_spec demo2 0 0 [] (by decide +kernel) (fresh_reachable _ init Fresh.frAll_init) (Aux.memoOk_nil _ _)
+
+/-- ... and the conclusion is not trivial: across the two trees `a`, `A` (three nodes) end on the one taxon `A` (0) of namespace 0 -/
+example : ((migrateTl demo2 0 0 true []).1.tree 0).taxa = [some 5, some 0] ∧ ((migrateTl demo2 0 0 true []).1.tree 1).taxa = [some 0, some 0]
+    ∧ mem (migrateTl demo2 0 0 true []).1 0 = [0, 1, 5] := by decide +kernel
+
+/-- `cloneTree_spec` with its hypotheses proved for a reachable world (closure by `closed_reachable`, freshness by `fresh_reachable`) -/
+example := cloneTree_spec demo2 1 0
+  (closed_reachable _ init Aux.inv_init (by decide +kernel)) (fresh_reachable _ init Fresh.frAll_init) (by decide +kernel)
 
 /-- a valid history through the collection-level operations of `closed_step`: list migration, copy, `+` with a plain list,
 matrix migration and copy, data-set read and unification -/
